@@ -254,14 +254,20 @@ def getDims (ver : Nat) : Nat → Bool → P (List Dim)
     let ds ← getDims ver n (haveUnlim || d.size == 0)
     .ret (d :: ds)
 
-/-- hdr_get_NC_dimarray -/
-def getDimArray (ver : Nat) : P (List Dim) := do
+/-- hdr_get_NC_dimarray / hdr_get_NC_attrarray / hdr_get_NC_vararray are the same text up to the
+    tag, the limit and its error code: read tag and nelems, check the limit, accept any tag when
+    nelems = 0, otherwise demand the tag and run the item loop -/
+def getArray {α : Type} (ver : Nat) (tagWant maxN : Nat) (errMax : Err) (items : Nat → P (List α)) : P (List α) := do
   let tag ← getU32
   let ndefined ← getNonNeg ver
-  if ndefined > NC_MAX_DIMS then .fail .emaxdims else
+  if ndefined > maxN then .fail errMax else
   if ndefined = 0 then .ret [] else
-  if tag ≠ NC_DIMENSION then .fail .enotnc else
-  getDims ver ndefined false
+  if tag ≠ tagWant then .fail .enotnc else
+  items ndefined
+
+/-- hdr_get_NC_dimarray -/
+def getDimArray (ver : Nat) : P (List Dim) :=
+  getArray ver NC_DIMENSION NC_MAX_DIMS .emaxdims (fun n => getDims ver n false)
 
 /-- hdr_get_nc_type -/
 def getType (ver : Nat) : P NcType := do
@@ -302,18 +308,16 @@ def getN {α : Type} (item : P α) : Nat → P (List α)
     .ret (x :: xs)
 
 /-- hdr_get_NC_attrarray -/
-def getAttrArray (ver : Nat) : P (List Att) := do
-  let tag ← getU32
-  let ndefined ← getNonNeg ver
-  if ndefined > NC_MAX_ATTRS then .fail .emaxatts else
-  if ndefined = 0 then .ret [] else
-  if tag ≠ NC_ATTRIBUTE then .fail .enotnc else
-  getN (getAttr ver) ndefined
+def getAttrArray (ver : Nat) : P (List Att) :=
+  getArray ver NC_ATTRIBUTE NC_MAX_ATTRS .emaxatts (fun n => getN (getAttr ver) n)
 
 /-- one `dimid` of hdr_get_NC_var -/
 def getDimid (ver : Nat) (fNdims : Nat) : P Nat := do
   let tmp ← getNonNeg ver
   if tmp ≥ fNdims then .fail .ebaddim else .ret tmp
+
+/-- the `begin` field: `if (gbp->version == 1) hdr_get_uint32 else hdr_get_uint64` -/
+def getBegin (ver : Nat) : P Nat := if ver = 1 then getU32 else getU64
 
 /-- hdr_get_NC_var -/
 def getVar (ver : Nat) (fNdims : Nat) : P Var := do
@@ -324,17 +328,12 @@ def getVar (ver : Nat) (fNdims : Nat) : P Var := do
   let atts ← getAttrArray ver
   let xtype ← getType ver
   let vsize ← getNonNeg ver
-  let begin_ ← if ver = 1 then getU32 else getU64
+  let begin_ ← getBegin ver
   .ret { name := name, dimids := dimids, atts := atts, xtype := xtype, vsize := vsize, begin := begin_ }
 
 /-- hdr_get_NC_vararray -/
-def getVarArray (ver : Nat) (fNdims : Nat) : P (List Var) := do
-  let tag ← getU32
-  let ndefined ← getNonNeg ver
-  if ndefined > NC_MAX_VARS then .fail .emaxvars else
-  if ndefined = 0 then .ret [] else
-  if tag ≠ NC_VARIABLE then .fail .enotnc else
-  getN (getVar ver fNdims) ndefined
+def getVarArray (ver : Nat) (fNdims : Nat) : P (List Var) :=
+  getArray ver NC_VARIABLE NC_MAX_VARS .emaxvars (fun n => getN (getVar ver fNdims) n)
 
 /-- the part of ncmpio_hdr_get_NC after the magic: numrecs, dim_list, gatt_list, var_list -/
 def getBody (f : Fmt) : P Hdr := do
